@@ -141,6 +141,17 @@ theorem single_missing_middle_atom_refuted :
     spanning.contains (str "LYS", str "CG") = true ∧ spanning.contains (str "GLU", str "CB") = true :=
   ⟨backbone_N_fit_spans, middle_atom_fit_spans.1, middle_atom_fit_spans.2.1⟩
 
+/-- **Every hydrogen placed by superposition is fitted locally** when the heavy atoms are
+complete: for every amino-acid definition at every chain position (inside a chain, N-terminal,
+C-terminal), with none or all of the earlier hydrogens present, the three atoms a hydrogen is
+superposed on are pairwise at most two template bonds apart — the fit cannot be spoiled by any
+torsion of the structure. -/
+theorem hydrogen_fits_local :
+    P2P.Proofs.RepairFit.bases.all (fun b => (posRefs b).all (fun r => (hydrogens r).all (fun h =>
+      fitLocal r (heavyAll r) h && fitLocal r (presentFor r h) h))) = true ∧
+    P2P.Proofs.RepairFit.bases.all (fun b => (posRefs b).length = 3) = true :=
+  ⟨P2P.Proofs.RepairFit.hydrogen_fits_local, posRefs_complete⟩
+
 end repairfit
 
 /-! ### non-vacuity -/
